@@ -269,6 +269,8 @@ theorem trx_step {s : St} (hinv : InvX s.heap) (op : OpX) : TrX s.heap (HeapX.st
   | newCTxInFrom pr sc q => exact invx_newOps hinv _ (fun b hb => by cases hb)
   | witListEdit t i st => exact invx_newOps hinv _ (fun b hb => by cases hb)
   | stackEdit t j b => exact invx_newOps hinv _ (fun b hb => by cases hb)
+  | newHeaderFrom t => exact invx_newOps hinv _ (fun b hb => by cases hb)
+  | newBlockFrom t txs => exact invx_newOps hinv _ (fun b hb => by cases hb)
 
 theorem invx_step {s : St} (hinv : InvX s.heap) (op : OpX) : InvX (HeapX.stepX s op).1.heap :=
   (trx_step hinv op).inv
